@@ -217,7 +217,13 @@ def classify(diags, attr):
             props.update(fn.get("primary") or fn["props"])
         failures.append({"message": msg, "labels": [l for l, _ in labels], "label_props": {l: list(p) for l, p in labels},
                          "fn": fn["fn"] if fn else None, "props": sorted(props), "where": where,
-                         "rendered": d.get("rendered", "")})
+                         "rendered": d.get("rendered", ""), "unlabelled": not labels})
+    # An unlabelled failure (overflow, decreases, un-named invariant) next to LABELLED failures of the same function is
+    # most likely a consequence of those: it does not by itself speak for the function's primary properties.
+    labelled_fns = set(f["fn"] for f in failures if not f["unlabelled"])
+    for f in failures:
+        if f["unlabelled"] and f["fn"] in labelled_fns:
+            f["props"] = []
     return failures, compile_errors, rl
 
 
